@@ -254,6 +254,16 @@ func (w *world) run() {
 		out.Faults["shape.message_and_share_share_backing_array"]++
 	}
 	w.tag = fmt.Sprintf("thrnet-%d", rnd.Intn(1000))
+	if c.Bool(1, 4, "tag.long?") {
+		// domain tags of every length up to a few KMAC blocks (the tag is part of the KMAC key,
+		// which is padded to the 168-byte rate: block-aligned and one-off lengths included)
+		l := 1 + c.Choose(400, "tag.len")
+		for len(w.tag) < l {
+			w.tag += "-" + w.tag
+		}
+		w.tag = w.tag[:l]
+		out.Faults["shape.long_domain_tag"]++
+	}
 	out.Params["n"], out.Params["t"] = w.n, w.t
 	w.fp = append(w.fp, fmt.Sprint(w.n, w.t))
 	w.ev("threshold world n=%d t=%d", w.n, w.t)
